@@ -217,10 +217,13 @@ _pb("C01", "contract-based deductive verification (pyvc) of export_parse_line (f
     "exactly that tree and resets the per-sentence state. The lexer, tree building and the readers as generators over files "
     "are bounded only.",
     "proof for the export field map, the automaton step and the two reset blocks, bounded stand-in for the readers; 'other'")
-_pb("C07", "contract-based deductive verification (pyvc) of LabelGenerator.next (fresh labels: counter strictly increasing); bounded stand-in (compose of binarization chains, exhaustive rule space) for binarization",
+_pb("C07", "contract-based deductive verification (pyvc) of LabelGenerator.next (fresh labels: counter strictly increasing) and of MarkovLabelGenerator.next (two loops, ghost prefix sequences; verified as a block over the whole body); bounded stand-in (compose of binarization chains, exhaustive rule space) for binarization",
     "LabelGenerator.next returns '@' + decimal(counter+1) + 'X' and increments the counter by one (so deterministic "
-    "binarization labels are pairwise distinct). That binarization preserves the yield function is bounded only.",
-    "proof for the label generator only, the property itself bounded (rule space exhaustive up to the bound); 'other'")
+    "binarization labels are pairwise distinct). MarkovLabelGenerator.next returns '@' + the first min(v, len(vert)) vertical "
+    "context entries each behind '^' + the min(h, pos+1) right-hand-side labels walking left from position pos+1, each behind "
+    "'-' and followed by its fan-out unless `nofanout` + 'X', without IndexError for the positions binarize_rule passes, and "
+    "terminates. That binarization preserves the yield function (linsub, binarize_rule, the reorderings) is bounded only.",
+    "proof for the two label generators only, the property itself bounded (rule space exhaustive up to the bound); 'other'")
 _pb("C10", "contract-based deductive verification (pyvc) of transitions.topdown (reversed preorder of node actions; ValueError iff not binarized / heads missing) and of _inorder / inorder (recursion: the sequence equals the recursively defined in-order sequence); bounded stand-in: three replay automata",
     "topdown is proved to emit, for every well-formed tree, exactly one action per node in reversed preorder (SHIFT / UNARY-label "
     "/ BINARY-side-label with the side of the head child) and to raise ValueError exactly when some node has more than two "
